@@ -345,10 +345,35 @@ func c12CounterEdge(start uint32) *vlib.Result {
 	return res
 }
 
+// c12IVWrap: a reference sender whose random base IV happens to start with a word close
+// to 2^32 sends 24 frames; the nonce word is base word + counter modulo 2^32 (only the
+// frame COUNTER must never wrap), so the real receiver must accept every one of them.
+func c12IVWrap(word uint32) *vlib.Result {
+	ctx := context.Background()
+	res := &vlib.Result{Evals: 1, Nontrivial: 1}
+	rb := &netsim.Buf{}
+	r := stream.NewStream(rb)
+	_ = r.SetSymmetricKey(testKey)
+	dir, _ := refcodec.NewDir(testKey, [32]byte{}, [32]byte{})
+	copy(dir.BaseIV[:], []byte("reference-iv-16b"))
+	binary.BigEndian.PutUint32(dir.BaseIV[:4], word)
+	for i := 0; i < 24; i++ {
+		msg := []byte(fmt.Sprintf("frame-%02d-from-the-reference-sender", i))
+		rb.R = append(rb.R, dir.Seal(1, msg)...)
+		got, err := r.ReceiveCompleteMessage(ctx)
+		if err != nil || !bytes.Equal(got, msg) {
+			res.Violate("C12/real-rejects-ref-frame/base-iv-word-wraps", "base IV leading word %#x: frame %d (nonce word %#x) built by the reference sender was not accepted: %v", word, i, word+uint32(i), err)
+			return res
+		}
+	}
+	res.Outcome("iv-word-wrap-accepted")
+	return res
+}
+
 func C12Plan() *vlib.Plan {
 	p := &vlib.Plan{
 		Property: "C12", Level: "model_checking",
-		Rule:   "E-BFS over send histories: all sequences of length <= D over 11 operations (A/B sends 0/1/17/5000 bytes, A/B sends a secret, toggle crypto mode) x 7 cleartext-prefix shapes (none / A / B / both send a message; A / B / both send only zero-length frames), each replayed on two fresh real streams; state = (prefix shape, protected frames sent per direction, crypto mode). Every protected frame is opened by the independent reference decryptor (nonce = base IV word0 + counter, AAD = header / digests||header on the first frame), IVs compared across directions and all sessions of the run, reference-built frames fed to the real receiver; counter edge through imported state. Non-trivial = history emitted >= 1 protected frame.",
+		Rule:   "E-BFS over send histories: all sequences of length <= D over 11 operations (A/B sends 0/1/17/5000 bytes, A/B sends a secret, toggle crypto mode) x 7 cleartext-prefix shapes (none / A / B / both send a message; A / B / both send only zero-length frames), each replayed on two fresh real streams; state = (prefix shape, protected frames sent per direction, crypto mode). Every protected frame is opened by the independent reference decryptor (nonce = base IV word0 + counter, AAD = header / digests||header on the first frame), IVs compared across directions and all sessions of the run, reference-built frames fed to the real receiver; counter edge through imported state; a reference sender whose base IV leading word is 0 / 1 / 2^31-1 / 2^31 / 2^32-16 / 2^32-2 / 2^32-1 sends 24 frames to the real receiver (the nonce word wraps, the counter does not). Non-trivial = history emitted >= 1 protected frame.",
 		Assume: []string{"reference decryptor written from the property text (refcodec), uses Go's AES-GCM primitive", "IV randomness is judged only by distinctness over all sessions of the run"},
 	}
 	p.Gen = func(tier string, yield func(vlib.Case)) {
@@ -380,6 +405,10 @@ func C12Plan() *vlib.Plan {
 				}
 			}
 			rec(nil)
+		}
+		for _, wd := range []uint32{0, 1, 0x7fffffff, 0x80000000, 0xfffffff0, 0xfffffffe, 0xffffffff} {
+			wd := wd
+			yield(vlib.Case{ID: fmt.Sprintf("ref-sender-base-iv-word/%#x", wd), Run: func() *vlib.Result { return c12IVWrap(wd) }})
 		}
 		for _, st := range []uint32{0xffffffff - 3, 0xffffffff - 1, 0xffffffff, 0xfffffff0 + 8} {
 			st := st
